@@ -168,6 +168,25 @@ fn wire_of(run: &Run<Value>) -> Vec<String> {
         .collect()
 }
 
+/// The first place where two wires part, without addresses and payload tails: `open Udp :25565 vs open Udp :19132`.
+/// (Part of the violation signature, so that a known difference does not hide a different one of the same game.)
+fn first_difference(a: &[String], b: &[String], given: Option<u16>) -> String {
+    let brief = |l: Option<&String>| -> String {
+        match l {
+            None => "<nothing>".into(),
+            Some(l) if l.starts_with("open ") => {
+                let mut it = l.split(' ');
+                let (_, proto, peer) = (it.next(), it.next().unwrap_or(""), it.next().unwrap_or(""));
+                let port = peer.rsplit(':').next().unwrap_or("");
+                if given.map(|g| g.to_string()) == Some(port.to_string()) { format!("open {proto} :<given port>") } else { format!("open {proto} :{port}") }
+            }
+            Some(l) => l.chars().take(5 + 8).collect(),
+        }
+    };
+    let i = a.iter().zip(b.iter()).take_while(|(x, y)| x == y).count();
+    format!("{} vs {}", brief(a.get(i)), brief(b.get(i)))
+}
+
 fn outcome_of(run: &Run<Value>) -> Result<Value, String> {
     match &run.ended {
         Ended::Ok(v) => Ok(v.clone()),
@@ -562,11 +581,11 @@ impl Prop for C14 {
         }
         if wa != wb {
             let what = if wa.first() != wb.first() { "destination" } else { "requests" };
-            o.fail(format!("C14|{game}|wire differs|generic vs module|{what}"), detail(json!({})));
+            o.fail(format!("C14|{game}|wire differs|generic vs module|{what}|{}", first_difference(&wa, &wb, case.port)), detail(json!({})));
             return o;
         }
         if wa != wc {
-            o.fail(format!("C14|{game}|wire differs|generic vs protocol|requests"), detail(json!({})));
+            o.fail(format!("C14|{game}|wire differs|generic vs protocol|requests|{}", first_difference(&wa, &wc, case.port)), detail(json!({})));
             return o;
         }
         let (ra, rb, rc) = (outcome_of(&run_a), outcome_of(&run_b), outcome_of(&run_c));
